@@ -12,10 +12,14 @@ Inductive bop := BGet | BPut | BRemove.
 Inductive mprobe := MPut (k : Z) | MRemove (k : Z) | MGet (k : Z) | MFinal (s : shape).
 Inductive skind := SKZ | SKM | SKS.                                   (* zset | skipmap | skipset *)
 Inductive sprobe :=
-| SLookup (k : Z)                 (* zset.Rank | skipmap.Load | skipset.Contains *)
-| SInsert (k : Z) (h : nat)       (* zset.AddB(0,k) | Store | AddB; h = level of the node created, 0 = none *)
-| SDelete (k : Z)                 (* RemoveB | Delete | RemoveB *)
-| SFinal (l : list knode).
+| SLookup (k : Z)                 (* zset.Rank / RevRank | skipmap.Load / Get | skipset.ContainsB / Contains *)
+| SInsert (k : Z) (h : nat)       (* skipmap.Store / Put | skipset.AddB / Add; h = level of the node created, 0 = none *)
+| SLoS (k : Z) (h : nat)          (* skipmap.LoadOrStore / LoadOrStoreLazy; h likewise *)
+| SAdd (s k : Z) (h : nat)        (* zset.AddB(s, k) / Add(k) (s = 0); h = level of k's node afterwards *)
+| SIncr (d k : Z) (h : nat)       (* zset.IncrBy(d, k); h likewise *)
+| SDelete (k : Z)                 (* zset.RemoveB / Remove | skipmap.Delete / LoadAndDelete / Remove | skipset.RemoveB / Remove *)
+| SNoCmp                          (* zset.Score / Contains, skipmap.Range (stopped at the first element) / Len: no comparator call *)
+| SFinal (l : list snode).
 
 Inductive case :=
 | CShape (k : ckind) (s : shape) (probes : list (probe * nat))
@@ -30,9 +34,14 @@ Inductive case :=
 | CBTOps (m : nat) (s : shape) (ops : list (mprobe * nat))
 (* red-black (SRB) / AVL (SAVL) tree: the same with the C01 models RB.put / RB.remove / AVL.put / AVL.remove *)
 | CBinOps (s : shape) (ops : list (mprobe * nat))
-(* skip lists: highestLevel, level-0 keys, node heights (level fields), lanes each node is actually linked on; then
-   operations, each with (comparator calls, highestLevel afterwards); SFinal carries a second dump *)
-| CSkipOps (k : skind) (highest : nat) (keys : list Z) (heights lanes : list nat) (ops : list (sprobe * nat * nat)).
+(* skip lists: highestLevel, level-0 scores (zset; [] = all zero) and keys, node heights (level fields), lanes each
+   node is actually linked on; then operations, each with (comparator calls, highestLevel afterwards); SFinal
+   carries a second dump *)
+| CSkipOps (k : skind) (highest : nat) (scores keys : list Z) (heights lanes : list nat) (ops : list (sprobe * nat * nat))
+(* batch averages after a population through one entry point: n, then batches (factor, counts): the average of a
+   batch must be at most factor * (4*log2(n+2)+16) -- factor 2 for the operations that search twice
+   (zset score updates that move the member: UpdateScore's search + Insert's search) *)
+| CSkipAvg (n : Z) (batches : list (Z * list nat)).
 
 Definition key_of (p : probe) : Z :=
   match p with PGet k | PFloor k | PCeiling k | PPutPresent k | PRemoveAbsent k => k end.
@@ -170,49 +179,124 @@ Definition bin_step (st : shape) (x : mprobe * nat) : shape * nat :=
   end.
 
 (* ---- skip lists, operations on a carried level-0 sequence ---- *)
-Definition knode_eqb (a b : knode) : bool := (fst a =? fst b) && Nat.eqb (snd a) (snd b).
-Definition sk_mem (k : Z) (l : list knode) : bool := existsb (fun y => fst y =? k) l.
-Fixpoint sk_ins (y : knode) (l : list knode) : list knode :=
-  match l with [] => [y] | z :: r => if fst z <? fst y then z :: sk_ins y r else y :: l end.
-Fixpoint sk_del (k : Z) (l : list knode) : list knode :=
-  match l with [] => [] | z :: r => if fst z =? k then r else z :: sk_del k r end.
+Definition snode_eqb (a b : snode) : bool :=
+  (sscore a =? sscore b) && (skey a =? skey b) && Nat.eqb (sheight a) (sheight b).
+Fixpoint sk_find (k : Z) (l : list snode) : option snode :=
+  match l with [] => None | y :: r => if skey y =? k then Some y else sk_find k r end.
+(* where Insert's search ends: behind every node that is lessThan (score, key) *)
+Fixpoint sk_ins (y : snode) (l : list snode) : list snode :=
+  match l with [] => [y] | z :: r => if zlt (sscore y) (skey y) z then z :: sk_ins y r else y :: l end.
+Fixpoint sk_del (k : Z) (l : list snode) : list snode :=
+  match l with [] => [] | z :: r => if skey z =? k then r else z :: sk_del k r end.
+(* the nodes before k (nearest first), k's node, the nodes behind it *)
+Fixpoint sk_split (k : Z) (l pre : list snode) : list snode * option snode * list snode :=
+  match l with
+  | [] => (pre, None, [])
+  | y :: r => if skey y =? k then (pre, Some y, r) else sk_split k r (y :: pre)
+  end.
 (* zset deleteNode:  for highestLevel > 1 && header.next(highestLevel-1) == nil { highestLevel-- } *)
-Fixpoint ztrim (l : list knode) (h : nat) : nat :=
+Fixpoint ztrim (l : list snode) (h : nat) : nat :=
   match h with
-  | S (S _ as h1) => if existsb (fun y => Nat.ltb h1 (snd y)) l then h else ztrim l h1
+  | S (S _ as h1) => if existsb (fun y => Nat.ltb h1 (sheight y)) l then h else ztrim l h1
   | _ => h
   end.
-Definition sk_step (kd : skind) (st : list knode * nat) (x : sprobe * nat * nat) : (list knode * nat) * nat :=
+Definition raise (hi h : nat) : nat := if Nat.ltb hi h then h else hi.
+
+Definition sk_state := (list snode * nat)%type.
+(* zset list.Insert(s, k) of a fresh member; h = the level randomLevel drew (read off the dump afterwards) *)
+Definition z_insert (st : sk_state) (s k : Z) (h c ha : nat) : sk_state * nat :=
+  let '(l, hi) := st in
+  let hi' := raise hi h in
+  ((sk_ins (s, k, h) l, hi'), agree (Nat.eqb c (z_search_cost hi l s k) && Nat.leb 1 h && Nat.eqb ha hi')).
+(* zset list.UpdateScore(old, k, new): search by (old, k); in place when the neighbours allow it
+   ((prev == nil || prev.score < new) && (next == nil || next.score > new)), else deleteNode + Insert(new, k) *)
+Definition z_update (st : sk_state) (k new : Z) (h c ha : nat) : sk_state * nat :=
+  let '(l, hi) := st in
+  match sk_split k l [] with
+  | (pre, Some x, post) =>
+      let c1 := z_search_cost hi l (sscore x) k in
+      let fast := match pre with [] => true | p :: _ => sscore p <? new end
+                  && match post with [] => true | nx :: _ => new <? sscore nx end in
+      if fast then ((rev_append pre ((new, k, sheight x) :: post), hi),
+                    agree (Nat.eqb c c1 && Nat.eqb h (sheight x) && Nat.eqb ha hi))
+      else let l' := rev_append pre post in
+           let hi' := ztrim l' hi in
+           let hi'' := raise hi' h in
+           ((sk_ins (new, k, h) l', hi''),
+            agree (Nat.eqb c (c1 + z_search_cost hi' l' new k) && Nat.leb 1 h && Nat.eqb ha hi''))
+  | _ => (st, 1%nat)
+  end.
+
+Definition sk_step (kd : skind) (st : sk_state) (x : sprobe * nat * nat) : sk_state * nat :=
   let '(p, c, ha) := x in
   let '(l, hi) := st in
+  let same := Nat.eqb ha hi in
   match p with
-  | SFinal f => (st, agree (list_eqb knode_eqb l f && Nat.eqb hi ha))
+  | SFinal f => (st, agree (list_eqb snode_eqb l f && same))
+  | SNoCmp => (st, agree (Nat.eqb c O && same))
   | SLookup k =>
       match kd with
-      | SKZ => (st, agree (Nat.eqb c (if sk_mem k l then z_rank_cost hi l k else O) && Nat.eqb ha hi))   (* dict miss: no search *)
-      | _ => (st, agree (Nat.eqb c (m_find_cost hi l k) && Nat.eqb ha hi))
+      | SKZ => (st, agree (Nat.eqb c (match sk_find k l with Some y => z_rank_cost hi l (sscore y) k | None => O end) && same))
+      | _ => (st, agree (Nat.eqb c (m_find_cost hi l k) && same))
+      end
+  | SAdd s k h =>
+      match kd with
+      | SKZ => match sk_find k l with
+               | None => z_insert st s k h c ha
+               | Some y => if sscore y =? s then (st, agree (Nat.eqb c O && Nat.eqb h (sheight y) && same))   (* same score: nothing *)
+                           else z_update st k s h c ha
+               end
+      | _ => (st, 1%nat)
+      end
+  | SIncr d k h =>
+      match kd with
+      | SKZ => match sk_find k l with
+               | None => z_insert st d k h c ha
+               | Some y => z_update st k (sscore y + d) h c ha          (* IncrBy always goes through UpdateScore *)
+               end
+      | _ => (st, 1%nat)
       end
   | SInsert k h =>
       match kd with
-      | SKZ =>
-          if sk_mem k l then (st, agree (Nat.eqb c O && Nat.eqb h O && Nat.eqb ha hi))                   (* same score: nothing *)
-          else let hi' := if Nat.ltb hi h then h else hi in
-               ((sk_ins (k, h) l, hi'), agree (Nat.eqb c (z_insert_cost hi l k) && Nat.leb 1 h && Nat.eqb ha hi'))
+      | SKZ => (st, 1%nat)
       | _ =>
           (* Store / AddB draw the level and raise highestLevel BEFORE searching; when the key is present the level
              drawn is visible only through highestLevel afterwards *)
-          if sk_mem k l then ((l, ha), agree (Nat.leb hi ha && Nat.eqb h O && Nat.eqb c (m_find_cost ha l k)))
-          else ((sk_ins (k, h) l, ha),
-                agree (Nat.leb 1 h && Nat.eqb ha (Nat.max hi h) && Nat.eqb c (m_find_cost ha l k)))
+          match sk_find k l with
+          | Some _ => ((l, ha), agree (Nat.leb hi ha && Nat.eqb h O && Nat.eqb c (m_find_cost ha l k)))
+          | None => ((sk_ins (0, k, h) l, ha),
+                     agree (Nat.leb 1 h && Nat.eqb ha (Nat.max hi h) && Nat.eqb c (m_find_cost ha l k)))
+          end
+      end
+  | SLoS k h =>
+      match kd with
+      | SKM =>
+          (* LoadOrStore(Lazy): search with the highestLevel read at entry; only when the key is absent the level is
+             drawn, and when it exceeds that highestLevel the search is repeated with the raised one *)
+          match sk_find k l with
+          | Some _ => (st, agree (Nat.eqb h O && Nat.eqb c (m_find_cost hi l k) && same))
+          | None => let hi' := Nat.max hi h in
+                    ((sk_ins (0, k, h) l, hi'),
+                     agree (Nat.leb 1 h && Nat.eqb ha hi'
+                            && Nat.eqb c (m_find_cost hi l k + if Nat.ltb hi h then m_find_cost h l k else O)))
+          end
+      | _ => (st, 1%nat)
       end
   | SDelete k =>
       match kd with
       | SKZ =>
-          if sk_mem k l then let l' := sk_del k l in let hi' := ztrim l' hi in
-                             ((l', hi'), agree (Nat.eqb c (z_insert_cost hi l k) && Nat.eqb ha hi'))
-          else (st, agree (Nat.eqb c O && Nat.eqb ha hi))
-      | _ => ((sk_del k l, hi), agree (Nat.eqb c (m_del_cost hi l k) && Nat.eqb ha hi))
+          match sk_find k l with
+          | Some y => let l' := sk_del k l in let hi' := ztrim l' hi in
+                      ((l', hi'), agree (Nat.eqb c (z_search_cost hi l (sscore y) k) && Nat.eqb ha hi'))
+          | None => (st, agree (Nat.eqb c O && same))
+          end
+      | _ => ((sk_del k l, hi), agree (Nat.eqb c (m_del_cost hi l k) && same))
       end
+  end.
+Fixpoint mk_nodes (scores keys : list Z) (hs : list nat) : list snode :=
+  match keys, hs with
+  | k :: kr, h :: hr => (hd 0 scores, k, h) :: mk_nodes (tl scores) kr hr
+  | _, _ => []
   end.
 (* structure of the dump: every node is linked on exactly the lanes 0..level-1 and 1 <= level <= highestLevel *)
 Definition sk_struct_b (highest : nat) (keys : list Z) (heights lanes : list nat) : bool :=
@@ -231,9 +315,12 @@ Definition check_case (c : case) : nat :=
       else scan (fun (_ : unit) b => (tt, kind_of true (avg_ok n b))) tt batches 1
   | CBTOps m s ops => scan (bt_step m) (BTree.mkState (bt_root s) 0 false) ops 0
   | CBinOps s ops => scan bin_step s ops 0
-  | CSkipOps kd hi keys hs lanes ops =>
+  | CSkipOps kd hi scores keys hs lanes ops =>
       if negb (sk_struct_b hi keys hs lanes) then 1%nat
-      else scan (sk_step kd) (combine keys hs, hi) ops 1
+      else scan (sk_step kd) (mk_nodes scores keys hs, hi) ops 1
+  | CSkipAvg n batches =>
+      scan (fun (_ : unit) b => (tt, kind_of true (sum_nat (snd b) <=? fst b * (4 * Z.log2 (n + 2) + 16) * Z.of_nat (length (snd b)))))
+           tt batches 0
   end.
 
 Definition mismatches (cs : list case) : list (nat * nat) := find_bad check_case cs.
